@@ -19,7 +19,8 @@ const shutdownTime = 5 * time.Second
 // topic that the Sender made itself, with gossiptopic.MakeTopic. Pubsub drops
 // a message that, in its envelope of sender ID, sequence number, topic name,
 // signature and key, is larger than the maximum message size, and it does so
-// without telling the publisher.
+// without telling the publisher. The length of the topic name, which is part
+// of the envelope, is subtracted as well.
 const maxOwnTopicMessageSize = pubsub.DefaultMaxMessageSize - 4096
 
 // Sender sends announce messages over pubsub.
@@ -49,7 +50,11 @@ func New(p2pHost host.Host, topicName string, options ...Option) (*Sender, error
 			}
 			// A topic that is given may have another message size limit; that
 			// of a topic made here is known.
-			maxSize = maxOwnTopicMessageSize
+			maxSize = maxOwnTopicMessageSize - len(topicName)
+			if maxSize <= 0 {
+				cancelPubsub()
+				return nil, fmt.Errorf("topic name of %d bytes leaves no room for a message", len(topicName))
+			}
 		}
 	}
 
